@@ -10,6 +10,8 @@ from ..core import AnalysisError, FUNC, call_attr, calls_in, const, dotted, is_c
 from .c01 import field_rules
 
 EXPLANATION = [
+    'C18.typeless-address: an address-valued AD structure whose from_bytes builds Address(data) without a type assigns a constant address type in its constructor.',
+    'C18.subunit-form: avc.Frame.to_bytes writes the one-byte subunit address under the same test (`subunit_id < 5 or subunit_id == 7`) under which from_bytes reads it, and has the extended forms for the rest.',
     'C18.media-type-position: MediaCodecCapabilities reads its media type from the same position of the first octet as its constructor writes it (both unshifted, or both shifted).',
     'C18.config-options: the L2CAP configuration-option decoder loops while len(data) >= 2, reads type and length as data[0] / data[1] unmasked, takes data[2:2+length] and advances by 2+length, and the encoder writes bytes([type, len]) + value: every option list (3-byte FCS option, types 0x80..0xFF included) round-trips.',
     'C18.sdp-containment: (shared with C17) DataElementParser records the end of the sequence being parsed, refuses an element that ends past it, and puts the outer bound back on every exit of the nested parse (path rule): an empty nested sequence does not leave a stale, too small bound for the siblings that follow.',
@@ -912,7 +914,59 @@ def media_type_position(ctx):
             f'the media type is written {"shifted" if shifted_w else "as the whole first octet"} but read {"shifted / masked" if shifted_r else "as the whole first octet"}: any type other than 0 does not parse back', p.loc(fb))
 
 
+def subunit_form(ctx):
+    """avc.Frame: the serialiser chooses the one-byte subunit address for exactly the ids the parser reads from one byte
+    (`id < 5 or id == 7`); everything else goes through the extension byte(s)."""
+    R, p = ctx.r, ctx.p
+    rule = 'C18.subunit-form'
+    fb = p.find('bumble.avc.Frame.from_bytes')
+    tb = p.find('bumble.avc.Frame.to_bytes')
+    if fb is None or tb is None:
+        R.bad(rule, 'bumble.avc.Frame.from_bytes / to_bytes', 'anchor missing')
+        return
+
+    def plain_test(fn, var):
+        out = []
+        for n_ in walk_local(fn):
+            if isinstance(n_, ast.If) and var in norm(n_.test) and '5' in norm(n_.test):
+                out.append(n_)
+        return out[0] if out else None
+    a, b = plain_test(fb, 'subunit_id'), plain_test(tb, 'self.subunit_id')
+    if a is None or b is None:
+        R.bad(rule, 'bumble.avc.Frame | plain-form test', 'from_bytes / to_bytes no longer branch on the subunit id: an extended id cannot be serialised in the form the parser accepts', p.loc(tb))
+        return
+    ta, tb_ = norm(a.test), norm(b.test).replace('self.subunit_id', 'subunit_id')
+    R.check(ta == tb_, rule, 'bumble.avc.Frame | plain-form test', f'both use `{ta}`', f'the parser reads the one-byte form when `{ta}`, the serialiser writes it when `{tb_}`: an id in one set only (7 = "ignore", used by every UNIT INFO exchange) is re-serialised in another form than it was parsed from', p.loc(b))
+    ext = [x for x in ast.walk(tb) if isinstance(x, ast.BinOp) and isinstance(x.op, ast.BitOr) and is_const(x.right) and const(x.right) == 5]
+    R.check(len(ext) >= 2, rule, 'bumble.avc.Frame.to_bytes | extended forms', f'{len(ext)} extended forms (marker 5)', 'to_bytes has no extended form (marker 5 + extension bytes)', p.loc(tb))
+
+
+def typeless_address(ctx):
+    """An address data type whose wire form carries no address type (from_bytes builds `Address(data)` without one) fixes
+    the type in its constructor with a constant: copying the argument's type makes the parsed value a random address (the
+    default of Address()) whatever was encoded."""
+    R, p = ctx.r, ctx.p
+    rule = 'C18.typeless-address'
+    n = 0
+    for cn, ci in sorted(p.classes.items()):
+        if not cn.startswith('bumble.data_types.') or not any(b.endswith('Address') for b in ci.bases):
+            continue
+        fb, init = ci.methods.get('from_bytes'), ci.methods.get('__init__')
+        if fb is None or init is None:
+            continue
+        typeless = [c for c in calls_in(fb) if (dotted(c.func) or '').endswith('Address') and len(c.args) + len(c.keywords) == 1]
+        if not typeless:
+            continue
+        n += 1
+        sts = [s_ for s_ in walk_local(init) if isinstance(s_, ast.Assign) and dotted(s_.targets[0]) == 'self.address_type']
+        ok = len(sts) == 1 and (dotted(sts[0].value) or '').endswith('_ADDRESS')
+        R.check(ok, rule, f'{cn}.__init__ | address type', f'fixed to {dotted(sts[0].value) if ok else ""}', f'{ci.name} takes its address type from `{norm(sts[0].value) if sts else "?"}` but its wire form has none (from_bytes builds Address(data), which defaults to a random address): the parsed value differs in type from the one that was encoded', p.loc(init))
+    R.check(n >= 2, rule, 'bumble.data_types | typeless address structures', f'{n} classes', f'only {n} found')
+
+
 RULES = [
+    ('C18.typeless-address', typeless_address),
+    ('C18.subunit-form', subunit_form),
     ('C18.media-type-position', media_type_position),
     ('C18.config-options', config_options),
     ('C18.sdp-containment', sdp_containment_rule),
